@@ -18,6 +18,7 @@ const prelude = `(set-option :produce-models true)
 (declare-datatypes ((Slice 0)) (((mkSlice (sref Int) (soff Int) (slen Int) (scap Int)))))
 (define-fun tid ((v Val)) Int (ite ((_ is VBool) v) (tB v) (ite ((_ is VInt) v) (tI v) (ite ((_ is VFloat) v) (tF v) (ite ((_ is VStr) v) (tS v) (ite ((_ is VRef) v) (tR v) (ite ((_ is VSlice) v) (tL v) (ite ((_ is VOpaque) v) (tO v) 0))))))))
 (declare-fun errtext (Val) String)
+(declare-fun plainerr (Val) Bool)
 (define-fun vref ((v Val)) Int (ite ((_ is VRef) v) (vr v) (ite ((_ is VSlice) v) (lr v) 0)))
 `
 
